@@ -141,6 +141,9 @@ macro_rules! unweighted_subject {
                 Some(graaf::Union::union(self, other))
             }
             fn start(s: &Start) -> (Self, Option<M>) {
+                if let Some(x) = <$t as StartExtra>::start_extra(s) {
+                    return x;
+                }
                 let n = s.order.max(1);
                 let plain = |n: usize, arcs: &[(usize, usize)]| {
                     let mut g = <$t>::empty(n);
@@ -149,7 +152,7 @@ macro_rules! unweighted_subject {
                     }
                     g
                 };
-                match s.via % 5 {
+                match if s.via >= 5 { 0 } else { s.via } {
                     1 => {
                         if s.seed % 2 == 0 {
                             let mut o = <$other_a>::empty(n);
@@ -205,6 +208,44 @@ macro_rules! unweighted_subject {
             }
         }
     };
+}
+
+/// Start digraphs only one representation can have.
+trait StartExtra: Sized {
+    fn start_extra(_s: &Start) -> Option<(Self, Option<M>)> {
+        None
+    }
+}
+impl StartExtra for AdjacencyList {}
+impl StartExtra for AdjacencyMatrix {}
+impl StartExtra for EdgeList {}
+impl StartExtra for AdjacencyMap {
+    /// via 5: the subdigraph induced by the vertices >= k of a digraph on 0..n
+    /// (`filter_vertices`): a vertex set that is a contiguous run NOT starting
+    /// at 0 — or, for via 6, every other vertex.
+    fn start_extra(s: &Start) -> Option<(Self, Option<M>)> {
+        if s.via != 5 && s.via != 6 {
+            return None;
+        }
+        let n = s.order.max(1);
+        let mut g = AdjacencyMap::empty(n);
+        for &(u, v) in &s.arcs {
+            g.add_arc(u, v);
+        }
+        let k = (s.seed as usize) % n;
+        let keep = |u: usize| if s.via == 5 { u >= k } else { u % 2 == k % 2 };
+        let g = g.filter_vertices(keep);
+        let mut m: M = Model {
+            v: (0..n).filter(|&u| keep(u)).collect(),
+            a: std::collections::BTreeMap::new(),
+        };
+        for &(u, v) in &s.arcs {
+            if keep(u) && keep(v) {
+                m.a.insert((u, v), 1);
+            }
+        }
+        Some((g, Some(m)))
+    }
 }
 
 trait MaybeToggle {
@@ -516,7 +557,7 @@ pub fn run_history<S: Subject>(c: &Case, name: &str) -> Result<Stats, String> {
         Some(m) => m,
         None => validate_observed(&g.seen(), &format!("{name} start (seeded generator)"))?,
     };
-    compare(&g, &m, true, &format!("{name} start digraph (via {})", c.start.via % 5))?;
+    compare(&g, &m, true, &format!("{name} start digraph (via {})", c.start.via))?;
     let small = m.order() <= 26;
     let mut stats = Stats {
         removed_present_after_add: false,
@@ -642,6 +683,8 @@ pub fn case_from_raw(repr: u8, n: usize, via: u8, gen_kind: u8, seed: u64, raw_a
                     0..=2 => 0,
                     3 => 1,
                     4 => 2,
+                    // AdjacencyMap: half of these start from a filter_vertices result
+                    5 if repr == 1 => 5 + (seed % 2) as u8,
                     5 | 6 => 3,
                     _ => 4,
                 };
@@ -743,7 +786,7 @@ impl Prop for C01 {
     type Case = Case;
     const ID: &'static str = "C01";
     const NUM: u64 = 1;
-    const RULE: &'static str = "stateful / model-based: representation in {AdjacencyList, AdjacencyMap, AdjacencyMatrix, EdgeList, AdjacencyListWeighted<usize>, AdjacencyListWeighted<isize>}; start digraph from empty+adds, a conversion, From<rows|arcs>, a deterministic generator or a seeded random generator (order 1..24 quick / 1..70 thorough, orders 8, 9, 11, 16 over-represented for the bit matrix); then 0..40 (thorough 0..120) operations add_arc / add_arc_weighted / remove_arc / AdjacencyMatrix::toggle with vertex arguments in range (~70%), equal, = order, = order+1, far (1000, usize::MAX) and arbitrary weights; after every step order, vertices, arcs, weights, size, has_arc / arc_weight over all pairs of V + two ids outside V are compared with a BTreeSet model. About one random case in 25 has a large order (17..140, weighted towards 63..66, 96, 127..130, 140; at most 700 arcs). A low-rate 'huge' leg adds digraphs of 200..3100 vertices with O(n) arcs (paths, circuits, stars, wheels, trees, one row of exactly 255/256/257 out-neighbours, arcs in the last rows, complete below 300). Non-trivial = the history removes (or toggles off) a present arc after an add and contains a rejected call that is not the last step; distinct = distinct serialised case.";
+    const RULE: &'static str = "stateful / model-based: representation in {AdjacencyList, AdjacencyMap, AdjacencyMatrix, EdgeList, AdjacencyListWeighted<usize>, AdjacencyListWeighted<isize>}; start digraph from empty+adds, a conversion, From<rows|arcs>, a deterministic generator, a seeded random generator or (AdjacencyMap) a filter_vertices result whose vertex set is a run not starting at 0 / every other vertex (order 1..24 quick / 1..70 thorough, orders 8, 9, 11, 16 over-represented for the bit matrix); then 0..40 (thorough 0..120) operations add_arc / add_arc_weighted / remove_arc / AdjacencyMatrix::toggle with vertex arguments in range (~70%), equal, = order, = order+1, far (1000, usize::MAX) and arbitrary weights; after every step order, vertices, arcs, weights, size, has_arc / arc_weight over all pairs of V + two ids outside V are compared with a BTreeSet model. About one random case in 25 has a large order (17..140, weighted towards 63..66, 96, 127..130, 140; at most 700 arcs). A low-rate 'huge' leg adds digraphs of 200..3100 vertices with O(n) arcs (paths, circuits, stars, wheels, trees, one row of exactly 255/256/257 out-neighbours, arcs in the last rows, complete below 300). Non-trivial = the history removes (or toggles off) a present arc after an add and contains a rejected call that is not the last step; distinct = distinct serialised case.";
     const ASSUMPTIONS: &'static [&'static str] = &[
         "panic messages are not compared",
         "for AdjacencyMap nothing is asserted about how large an id may be (ids up to 2^20 are used)",
@@ -844,7 +887,7 @@ impl Prop for C01 {
             _ => run_history::<AdjacencyListWeighted<isize>>(c, name)?,
         };
         obs.label(format!("repr={name}"));
-        obs.label(format!("start-via={}", c.start.via % 5));
+        obs.label(format!("start-via={}", c.start.via));
         obs.label(match c.ops.len() {
             0 => "ops=0",
             1..=5 => "ops=1-5",
